@@ -27,7 +27,7 @@ ASSUMPTIONS = [
     "channel centres are the library's float32 labels (Header.chan_freqs)",
     "sky position/angles are not part of the mask file format and are not compared",
 ]
-REQUIRED_OUTCOMES = ["stats_mask/ok", "stats_mask/wide_ok", "union/ok", "clean/ok", "clean/default_value_ok", "file/ok"]
+REQUIRED_OUTCOMES = ["stats_mask/ok", "stats_mask/wide_ok", "union/ok", "clean/ok", "clean/default_value_ok", "clean/refused_leaves_no_state", "file/ok"]
 
 VALS = [1.0, 1.25, 50.0]
 NORM = 0.6744897501960817
@@ -355,6 +355,18 @@ def _clean(shard, ctx, res, only):
                             return np.roll(np.asarray(m, dtype=bool), 1)
                     try:
                         fil = FilReader(paths)
+                        if g % 3 == 0:
+                            # a refused request (unknown method, over a different range) first: it must leave nothing behind on the reader
+                            try:
+                                fil.clean_rfi(method="median", threshold=3, outfile_name=str(wd / "refused.fil"), gulp=g, nsamps=max(2, N // 3), quiet=True, description="vf")
+                                res.violation({"site": "Filterbank.clean_rfi", "symptom": "unknown method accepted"}, case, "method='median'")
+                                continue
+                            except ValueError:
+                                if fil.chan_stats is not None:
+                                    res.violation({"site": "Filterbank.clean_rfi", "symptom": "a refused request left channel statistics on the reader"}, case,
+                                                  "clean_rfi(method='median', nsamps=N/3) raised, but chan_stats is set and will be used by the next call")
+                                    continue
+                                res.outcome("clean/refused_leaves_no_state")
                         name, mask = fil.clean_rfi(method=method, threshold=3, freq_mask=fm, custom_funcn=cf, mask_value=mv, outfile_name=out, gulp=g, quiet=True, description="vf")
                         means = np.asarray(fil.chan_stats.mean)
                         del fil
